@@ -180,7 +180,7 @@ impl Buildinfo {
     pub fn build_tainted_by(&self) -> Option<Vec<String>> {
         self.0
             .get("Build-Tainted-By")
-            .map(|s| s.split(' ').map(|s| s.to_string()).collect())
+            .map(|s| s.split_whitespace().map(|s| s.to_string()).collect())
     }
 
     /// Set the build tainted by field list
